@@ -130,6 +130,14 @@ def run(ctx):
             ds = R.sample(DIRECTIVES, R.randint(1, 4))
             fmts = [R.choice(["", " ", "-", "/", ":", "."]).join(ds)]
         jobs.append((R.choice(["parse", "gdd"]), s, kw, fmts)); expect.append(None)
+    # dates at the very ends of the range × zone settings that push them over the edge, through every parser incl. custom formats
+    for s, fm in [("0001-01-01 00:00", "%Y-%m-%d %H:%M"), ("9999-12-31 23:00", "%Y-%m-%d %H:%M"), ("31/12/9999 23:59", "%d/%m/%Y %H:%M"), ("1 January 0001", "%d %B %Y"),
+                  ("9999-12-31 23:59:59", None), ("0001-01-01", None), ("January 1, 0001 00:30", None), ("253402300799", None), ("-62135596800", None)]:
+        for tzs in [{"TIMEZONE": "UTC", "TO_TIMEZONE": "America/New_York"}, {"TIMEZONE": "UTC", "TO_TIMEZONE": "Asia/Tokyo"}, {"TIMEZONE": "America/Los_Angeles", "TO_TIMEZONE": "UTC"},
+                    {"TIMEZONE": "+1400", "TO_TIMEZONE": "UTC", "RETURN_AS_TIMEZONE_AWARE": True}, {"TIMEZONE": "-1200"}, {"TIMEZONE": "Pacific/Kiritimati"}]:
+            for pf in ("past", "future"):
+                st = dict(tzs, RELATIVE_BASE=R.choice(BASES[:6]), PREFER_DATES_FROM=pf)
+                jobs.append((R.choice(["parse", "gdd"]), s, {"languages": ["en"], "settings": st}, [fm] if fm else None)); expect.append(None)
     # invalid configuration / wrongly typed arguments: the documented exception, whatever the string
     bad_settings = [({"UNKNOWN": 1}, "SettingValidationError"), ({"DATE_ORDER": "XYZ"}, "SettingValidationError"), ({"STRICT_PARSING": "yes"}, "SettingValidationError"),
                     ({"PREFER_DATES_FROM": "yesterday"}, "SettingValidationError"), ({"REQUIRE_PARTS": ["hour"]}, "SettingValidationError"), ({"PARSERS": ["foo"]}, "SettingValidationError"),
